@@ -7,7 +7,7 @@ Driver for C18.  Operations (one per line; `harness/c18.cpp` implements the same
                         elements (cap 300, else `overrun`), `size()`, `range::size` (plain signed types)
 * `irub ty b e`       — only `size()`, really called even where it is undefined (model: the fault's name)
 * `irc ty n`          — `make_int_range_count(n)`
-* `irs ty b`          — digest of the `ir ty b e` lines for every `e` of an 8-bit `ty`
+* `irs ty b`          — digest of the `ir ty b e` lines for every `e` of an 8- or 16-bit `ty`
 * `er n w s e` / `ers n w s` / `era n w` — `make_range_start_end` / `make_range_start` / `make_range` of an enum with
                         `n` enumerators and a `w`-bit size_type
 * `cyc L f s start k` — cyclic iterator over the sub-range `[f, s)` of a vector of length `L`, at index `start`, advanced by `k`
@@ -153,7 +153,7 @@ def handle (toks : List String) : String :=
     | _, _ => "bad-op"
   | ["irs", ty, b] =>
     match tyOf ty, int? b with
-    | some (t, st), some b => if t.bits = 8 ∧ t.InRange b then irsDigest t st b else "bad-op"
+    | some (t, st), some b => if (t.bits = 8 ∨ t.bits = 16) ∧ t.InRange b then irsDigest t st b else "bad-op"
     | _, _ => "bad-op"
   | ["er", n, w, s, e] =>
     match n.toNat?, w.toNat?, s.toNat?, e.toNat? with
